@@ -25,6 +25,8 @@ enum Code
   V_RESET,
   V_RESET_PTR,
   V_RESET_NULL,
+  V_RESET_SUB,       // V->reset(V->data()+1, size-1): onto a sub-range of what it already views
+  V_PTR_FROM_VIEW,   // V = new ArrayView(other->data()+1, othersize-1)
   V_ASSIGN_VEC,
   V_ASSIGN_ARR,
   V_COPY_CTOR,
@@ -70,6 +72,7 @@ static std::vector<Op> make_ops()
   for (int b = 0; b < 2; b++)
     add(V_RESET_PTR, 0, 1, b, std::string("V0->reset S1") + var[b], "reset(T*,size_t)");
   add(V_RESET_NULL, 0, 0, 0, "V0->reset(nullptr,0)", "reset(T*,size_t)");
+  add(V_RESET_SUB, 0, 0, 0, "V0->reset(V0->data()+1, size-1)", "reset(T*,size_t) onto a sub-range of the viewed data");
   add(V_ASSIGN_VEC, 0, 0, 0, "*V0 = S0", "operator=(vector&)");
   add(V_ASSIGN_VEC, 0, 1, 0, "*V0 = S1", "operator=(vector&)");
   add(V_ASSIGN_ARR, 0, 0, 0, "*V0 = arr", "operator=(array&)");
@@ -80,6 +83,7 @@ static std::vector<Op> make_ops()
   // second slot: what is needed for interactions
   add(V_VEC, 1, 0, 0, "V1 = new ArrayView(S0)", "ArrayView(vector&)");
   add(V_PTR, 1, 1, 1, std::string("V1 = new ArrayView S1") + var[1], "ArrayView(T*,size_t)");
+  add(V_PTR_FROM_VIEW, 1, 0, 0, "V1 = new ArrayView(V0->data()+1, V0 size-1)", "ArrayView(T*,size_t) onto a sub-range of another view");
   add(V_COPY_CTOR, 1, 0, 0, "V1 = new ArrayView(*V0)", "copy constructor");
   add(V_COPY_ASSIGN, 1, 0, 0, "*V1 = *V0", "copy assignment");
   add(V_WRITE, 1, 0, 0, "(*V1)[0] = fresh", "write through view");
@@ -210,7 +214,7 @@ struct World
     touched[0] = touched[1] = false;
     if (op.code >= V_DEF) {
       touched[s] = true;
-      if (op.code == V_COPY_CTOR || op.code == V_COPY_ASSIGN)
+      if (op.code == V_COPY_CTOR || op.code == V_COPY_ASSIGN || op.code == V_PTR_FROM_VIEW)
         touched[op.a] = true;
     }
     T *p = nullptr;
@@ -286,6 +290,35 @@ struct World
       V[s]->reset(nullptr, 0);
       m_empty(M[s], "reset(nullptr,0)", true);
       return true;
+    case V_RESET_SUB: {
+      MView &m = M[s];
+      if (!m.live || m.n == 0 || !readable(m))
+        return false;
+      V[s]->reset(V[s]->data() + 1, m.n - 1);
+      m.off += 1;
+      m.n -= 1;
+      if (m.n == 0)
+        m.kind = 0;
+      m.reset_like = false;
+      m.how = "reset(pointer)";
+      return true;
+    }
+    case V_PTR_FROM_VIEW: {
+      const MView &o = M[op.a];
+      if (!o.live || o.n == 0 || !readable(o))
+        return false;
+      ArrayView<T> *nv = new ArrayView<T>(V[op.a]->data() + 1, o.n - 1);
+      delete V[s];
+      V[s] = nv;
+      M[s] = o;
+      M[s].off += 1;
+      M[s].n -= 1;
+      if (M[s].n == 0)
+        M[s].kind = 0;
+      M[s].reset_like = false;
+      M[s].how = "from pointer";
+      return true;
+    }
     case V_ASSIGN_VEC:
       if (!M[s].live || !S.alive[op.a])
         return false;
@@ -323,7 +356,7 @@ struct World
       if (M[s].kind == 1)
         S.mv[M[s].src][M[s].off] = x;
       else
-        S.marr[0] = x;
+        S.marr[M[s].off] = x;
       return true;
     }
     case V_DESTROY:
@@ -359,8 +392,8 @@ struct World
           e.alias = S.data(M[s].src) + M[s].off;
           e.want.assign(S.mv[M[s].src].begin() + M[s].off, S.mv[M[s].src].begin() + M[s].off + M[s].n);
         } else {
-          e.alias = S.arr->data();
-          e.want = S.marr;
+          e.alias = S.arr->data() + M[s].off;
+          e.want.assign(S.marr.begin() + M[s].off, S.marr.begin() + M[s].off + M[s].n);
         }
       }
       c.wrapper(*V[s], e);
